@@ -10,6 +10,11 @@ mod sut;
 
 use crate::core::{machinery_error, Ctx, Tier};
 
+// the hook is inert unless a thread registers itself (C18's allocation-point explorations)
+#[cfg(debug_assertions)]
+#[global_allocator]
+static GLOBAL: env::HookAlloc = env::HookAlloc;
+
 fn usage() -> ! {
     eprintln!("usage: vh <C01..C19> quick|thorough   |   vh <ID> --replay <file>   |   vh selfcheck");
     std::process::exit(2);
